@@ -5,6 +5,7 @@ CONSTANTS
   Profile = "misc"
   Backend = "sqlite"
   Deviations = {}
+  LongN = 1201
   CpsMode = FALSE
 INVARIANT Export
 CHECK_DEADLOCK FALSE
